@@ -1,0 +1,94 @@
+//go:build verif
+
+package vecfc
+
+// Machine-checked contracts for /verif (read as text by the VC generator; no code).
+//
+// Vector clocks are byte strings: LowestAfterSeq holds one little-endian uint32 per branch,
+// HighestBeforeSeq two (Seq, MinSeq). Reading beyond the end yields zero.
+//
+//@ const MaxI32 = 2147483647
+//@ // well-formed vectors: whole entries, length fits the 32-bit index arithmetic
+//@ spec lawf(b []byte) bool = len(b) % 4 == 0 && len(b) <= 4294967292
+//@ spec hbwf(b []byte) bool = len(b) % 8 == 0 && len(b) <= 4294967288
+//@ spec laGet(b []byte, i int) int = ite(i * 4 + 4 <= len(b), le32(b[i*4:i*4+4]), 0)
+//@ spec hbSeq(b []byte, i int) int = ite(i * 8 + 8 <= len(b), le32(b[i*8:i*8+4]), 0)
+//@ spec hbMin(b []byte, i int) int = ite(i * 8 + 8 <= len(b), le32(b[i*8+4:i*8+8]), 0)
+//@ // the fork marker is Seq = 0 together with MinSeq = MaxInt32
+//@ spec hbFork(b []byte, i int) bool = hbSeq(b, i) == 0 && hbMin(b, i) == MaxI32
+//@
+//@ func (LowestAfterSeq).Size
+//@   requires len(b) <= 4294967295
+//@   ensures  result == len(b) / 4
+//@ func (LowestAfterSeq).Get
+//@   requires lawf(b)
+//@   ensures  result == laGet(b, i)
+//@ func (*LowestAfterSeq).Set
+//@   requires b != nil && lawf(deref(b)) && i < 1073741823
+//@   modifies deref(b), deref(b)[*]
+//@   ensures  [len] len(deref(b)) == max(old(len(deref(b))), 4 * (i + 1)) && lawf(deref(b))
+//@   ensures  [set] laGet(deref(b), i) == seq
+//@   ensures  [others] forall(j int, j >= 0 && j != i ==> laGet(deref(b), j) == old(laGet(deref(b), j)))
+//@   loop 1 modifies deref(b), deref(b)[*]
+//@   loop 1 invariant arrof(deref(b)) == arrof(atentry(deref(b))) || arrfresh(deref(b), _loopalloc)
+//@   loop 1 invariant arrof(deref(b)) == old(arrof(deref(b))) || arrfresh(deref(b), old(_alloc))
+//@   loop 1 invariant lawf(deref(b)) && len(deref(b)) >= old(len(deref(b))) && len(deref(b)) <= max(old(len(deref(b))), 4 * (i + 1))
+//@   loop 1 invariant forall(j, 0, old(len(deref(b))), deref(b)[j] == old(deref(b)[j]))
+//@   loop 1 invariant forall(j, old(len(deref(b))), len(deref(b)), deref(b)[j] == 0)
+//@
+//@ func (HighestBeforeSeq).Size
+//@   ensures  result == len(b) / 8
+//@ func (HighestBeforeSeq).Get
+//@   requires hbwf(b)
+//@   ensures  result.Seq == hbSeq(b, i) && result.MinSeq == hbMin(b, i)
+//@ func (*HighestBeforeSeq).Set
+//@   requires b != nil && hbwf(deref(b)) && i < 536870911
+//@   modifies deref(b), deref(b)[*]
+//@   ensures  [len] len(deref(b)) == max(old(len(deref(b))), 8 * (i + 1)) && hbwf(deref(b))
+//@   ensures  [set] hbSeq(deref(b), i) == seq.Seq && hbMin(deref(b), i) == seq.MinSeq
+//@   ensures  [others] forall(j int, j >= 0 && j != i ==> hbSeq(deref(b), j) == old(hbSeq(deref(b), j)) && hbMin(deref(b), j) == old(hbMin(deref(b), j)))
+//@   loop 1 modifies deref(b), deref(b)[*]
+//@   loop 1 invariant arrof(deref(b)) == arrof(atentry(deref(b))) || arrfresh(deref(b), _loopalloc)
+//@   loop 1 invariant arrof(deref(b)) == old(arrof(deref(b))) || arrfresh(deref(b), old(_alloc))
+//@   loop 1 invariant hbwf(deref(b)) && len(deref(b)) >= old(len(deref(b))) && len(deref(b)) <= max(old(len(deref(b))), 8 * (i + 1))
+//@   loop 1 invariant forall(j, 0, old(len(deref(b))), deref(b)[j] == old(deref(b)[j]))
+//@   loop 1 invariant forall(j, old(len(deref(b))), len(deref(b)), deref(b)[j] == 0)
+//@
+//@ func (BranchSeq).IsForkDetected
+//@   ensures  result == (seq.Seq == 0 && seq.MinSeq == MaxI32)
+//@
+//@ // ---- operations on the vectors (vector_ops.go) ----
+//@ func (*LowestAfterSeq).InitWithEvent
+//@   requires b != nil && lawf(deref(b)) && i < 1073741823 && e != nil
+//@   modifies deref(b), deref(b)[*]
+//@   ensures  len(deref(b)) == max(old(len(deref(b))), 4 * (i + 1)) && lawf(deref(b)) && laGet(deref(b), i) == e.Seq()
+//@   ensures  forall(j int, j >= 0 && j != i ==> laGet(deref(b), j) == old(laGet(deref(b), j)))
+//@ // Visit records the first (lowest) observer only: an entry that is already set is never overwritten
+//@ func (*LowestAfterSeq).Visit
+//@   requires b != nil && lawf(deref(b)) && i < 1073741823 && e != nil
+//@   modifies deref(b), deref(b)[*]
+//@   ensures  [seen] old(laGet(deref(b), i)) != 0 ==> !result && len(deref(b)) == old(len(deref(b))) && forall(j int, j >= 0 ==> laGet(deref(b), j) == old(laGet(deref(b), j)))
+//@   ensures  [new] old(laGet(deref(b), i)) == 0 ==> result && laGet(deref(b), i) == e.Seq() && len(deref(b)) == max(old(len(deref(b))), 4 * (i + 1)) && forall(j int, j >= 0 && j != i ==> laGet(deref(b), j) == old(laGet(deref(b), j)))
+//@   ensures  lawf(deref(b))
+//@ func (*HighestBeforeSeq).InitWithEvent
+//@   requires b != nil && hbwf(deref(b)) && i < 536870911 && e != nil
+//@   modifies deref(b), deref(b)[*]
+//@   ensures  len(deref(b)) == max(old(len(deref(b))), 8 * (i + 1)) && hbwf(deref(b)) && hbSeq(deref(b), i) == e.Seq() && hbMin(deref(b), i) == e.Seq()
+//@   ensures  forall(j int, j >= 0 && j != i ==> hbSeq(deref(b), j) == old(hbSeq(deref(b), j)) && hbMin(deref(b), j) == old(hbMin(deref(b), j)))
+//@ func (*HighestBeforeSeq).IsEmpty
+//@   requires b != nil && hbwf(deref(b))
+//@   ensures  result == (hbSeq(deref(b), i) == 0 && !hbFork(deref(b), i))
+//@ func (*HighestBeforeSeq).IsForkDetected
+//@   requires b != nil && hbwf(deref(b))
+//@   ensures  result == hbFork(deref(b), i)
+//@ func (*HighestBeforeSeq).Seq
+//@   requires b != nil && hbwf(deref(b))
+//@   ensures  result == hbSeq(deref(b), i)
+//@ func (*HighestBeforeSeq).MinSeq
+//@   requires b != nil && hbwf(deref(b))
+//@   ensures  result == hbMin(deref(b), i)
+//@ func (*HighestBeforeSeq).SetForkDetected
+//@   requires b != nil && hbwf(deref(b)) && i < 536870911
+//@   modifies deref(b), deref(b)[*]
+//@   ensures  len(deref(b)) == max(old(len(deref(b))), 8 * (i + 1)) && hbwf(deref(b)) && hbFork(deref(b), i)
+//@   ensures  forall(j int, j >= 0 && j != i ==> hbSeq(deref(b), j) == old(hbSeq(deref(b), j)) && hbMin(deref(b), j) == old(hbMin(deref(b), j)))
